@@ -109,8 +109,13 @@ verus_unit(
             (r"self\.bulk\.read\(\)\?", "self.bulk.read().be()?", 1),
             (r"word\.into\(\)", "word.w2s()", 1),
         ]),
+        "APOS": dict(file="src/stream/stack.rs", anchor="Pos for AnsCoder<Word, State, Backend>", fn="pos", extra=[]),
+        "ASEEK": dict(file="src/stream/stack.rs", anchor="Seek for AnsCoder<Word, State, Backend>", fn="seek", extra=[]),
     },
     obligations={
+        "pos": dict(own=["C07"], dep=[], text="ensures: (number of words on the stack, head state)"),
+        "seek": dict(own=["C07"], dep=[], text="ensures: Err iff pos > len; else the coder's view is (first pos words, given state)"),
+        "thm_seek_restores_snapshot": dict(own=["C07"], dep=[], text="encoding only pushes, so a snapshot's words stay a prefix of the finished data and seek restores the snapshot's view exactly"),
         "encode_symbol": dict(own=["C06", "C09"], dep=["C01", "C04", "C12"], kani_twin="ans::u8_u16_p8::conf_encode",
                               text="ensures: symbol outside model => Err(Frontend), coder unchanged; flush iff state>>(SB-P) >= p; failed write => Err(Backend), coder unchanged; state' == ll_push_head(..) [all P]"),
         "decode_symbol": dict(own=["C06", "C10"], dep=["C01", "C04"], kani_twin="ans::u8_u16_p8::conf_decode",
@@ -468,6 +473,38 @@ for _n in ("2",):   # the accepting / surplus-symbol variants (_3, _4) need 16-1
          text="Ok iff #symbols == #probabilities; every quantile of an accepted model is answered in bounds")
 kani("models::fast_f32_n2_p8", ["C19", "C03", "C20"], kind="bounded", bound="2 f32 entries (all bit patterns)", timeout=1200,
      fns=[M + "categorical.rs::fast_quantized_cdf", M + "categorical/contiguous.rs::ContiguousCategoricalEntropyModel::from_floating_point_probabilities_fast"])
+
+# ---------------- Verus unit: random access into range-coded data (queue.rs: pos, read_point, seek)
+verus_unit(
+    name="range_seek", template="range_seek_unit.rs.tmpl",
+    widths=["u8_u16", "u8_u32", "u8_u64", "u16_u32", "u16_u64", "u32_u64"],
+    slots={
+        "POS": dict(file="src/stream/queue.rs", anchor="Pos for RangeEncoder<Word, State, Backend>", fn="pos", extra=[]),
+        "READ_POINT": dict(file="src/stream/queue.rs", anchor="impl<Word, State, Backend> RangeDecoder<Word, State, Backend>", fn="read_point", extra=[
+            # R16: `while let Some(x) = e { body }` (unsupported by Verus) -> its desugaring
+            # `loop { let o = e; if o.is_none() { break; } let x = o.unwrap(); body }`, plus the ghost-only loop contract
+            (r"while let Some\(word\) = bulk\.read\(\)\? \{",
+             "loop\n            invariant_except_break num_read < nw(),\n            invariant static_ok(), bulk.wf(), bulk.v@ == old(bulk).v@, rest0 == old(bulk).rest(), pos0 == old(bulk).pos, num_read <= nw(), bulk.pos == pos0 + num_read, num_read <= rest0.len(),\n"
+             "                point as nat == winw(rest0, num_read as nat), (point as nat) < p2w(num_read as nat),\n"
+             "            ensures num_read == nw() || rest0.len() == num_read,\n            decreases nw() - num_read\n        {\n"
+             "            let o__ = bulk.read()?; if o__.is_none() { break; } let word = o__.unwrap();\n"
+             "            proof { lemma_read_step(point, word, num_read); assert(word == rest0[num_read as int]); }", 1),
+            (r"word\.into\(\)", "word.w2s()", 1),
+            # ghost-only insertions at recorded anchors
+            (r"(if num_read != 0 \{)", r"\1 proof { lemma_shl_pad(point, num_read); }", 1),
+            (r"Ok\(point\)", "proof { lemma_p2w(0); if num_read < nw() { lemma_winw_pad(rest0, num_read as nat, nw()); assert(winw(rest0, 0) == 0); if num_read == 0 { assert(winw(rest0, nw()) == 0); } }\n                assert(point as nat == winw(rest0, nw())); }\n        Ok(point)", 1),
+        ]),
+        "SEEK": dict(file="src/stream/queue.rs", anchor="Seek for RangeDecoder<Word, State, Backend>", fn="seek", extra=[
+            (r"Self::read_point\(&mut self\.bulk\)\.map_err\(\|_\| \(\)\)\?", "read_point(&mut self.bulk)?", 1),
+        ]),
+    },
+    obligations={
+        "pos": dict(own=["C07"], dep=[], kani_twin="range::u8_u16_p8::enc_pos", text="ensures: position == words written + words held back (any number), state == encoder state"),
+        "read_point": dict(own=["C07", "C10"], dep=["C02", "C11"], text="ensures: total; window value of the next State/Word words, zero padded at the end of data; consumes min(State/Word, remaining) words"),
+        "seek": dict(own=["C07"], dep=[], kani_twin="range::u8_u16_p8::dec_seek", text="ensures: Err iff pos > len; else state := given, point := window at pos, backend behind the window"),
+        "thm_seek_is_sought": dict(own=["C07"], dep=[], text="layer B = layer A: the decoder left by seek is `sought` of the interval model, to which thm_seek_coupled / thm_seek_resumes (lemmas_range_interval.rs) apply: decoding resumes with exactly the symbols after the snapshot, wherever the decoder was before"),
+    },
+)
 
 # ---------------- Verus unit: chain coder decoding step (chain.rs)
 _CH_DEC = "Decode<PRECISION>\n    for ChainCoder<Word, State, CompressedBackend, RemaindersBackend, PRECISION>"
